@@ -41,6 +41,13 @@ CHECKS = {
         note="The fake multiprocessing primitives (Pool.map tasks as cooperative threads, Manager().Queue, Process with fork-copy and terminate) stand in for real processes; the repaired life cycle was additionally exercised once with real processes. A hang is an exact deadlock of the runtime, never a timeout.",
         ref="DESIGN.md 3.3, 4 C09",
     ),
+    "C02": dict(
+        engine="CreatePipeline+Reader",
+        technique="TLC model checking of spec/CreatePipeline.tla (ExactOnSuccess over all fault-free scenarios and schedules) and spec/Reader.tla; every (L, chunksize, W) scenario replayed on the real Catalog.from_dataframe/from_file for each source format, dtype, optional-column combination, unit and patch mode on the deterministic multiprocessing runtime (random + depth-first-exhaustive schedules), per-patch record multisets compared with exact expectations",
+        text="TLC proves for the pipeline design that a successful creation stored every record exactly once in its patch for all lengths 1..5(7), chunk sizes 1..3(4), 1..3(4) workers and every interleaving of pool tasks, queue and writer. Each scenario is then run on the real library from a data frame, HDF5, big-endian FITS and Parquet (random row-group layouts) with f8/f4/i8 columns, all four weight/redshift combinations, degrees or radian input and the three patch modes, under several schedules of the fake multiprocessing runtime (all schedules for the smallest scenarios, real processes with injected delays in the thorough tier). The oracle reads the records back from the returned catalog and from Catalog(cache): weights and redshifts bit-identical, coordinates within 2 ulp of the exact x*pi/180 (40-digit decimals), each record in the patch of its nearest given centre / named index, exactly once.",
+        note="Schedules are explored on fake multiprocessing primitives; k-means patch creation (patch_num) is only checked for the union of all patches because the centres are not fixed by the property.",
+        ref="DESIGN.md 3.3, 4 C02",
+    ),
 }
 
 NOT_YET = "machinery for this property is not built yet in this round (planned, see DESIGN.md section 10)"
